@@ -384,11 +384,93 @@ def build(active_known=frozenset()):
 
     c.ensures("inside a syntax-quote the gensym environment on top of the stack is a new, empty one (auto-gensyms are fresh across templates) and the reader "
               "knows it is syntax-quoting; afterwards both stacks are as before", sq_post)
+    add_template_readers(pack)
     for c in pack.contracts:
         if c.replay_ is None:
             c.replay(lambda m, ctx, ob: SQ_REPLAY)
             c.replay_without_model = True
     return pack
+
+
+def add_template_readers(pack):
+    """``_read_syntax_quoted`` and ``_read_unquote`` on top of the C16 stream-reader contracts (used at call sites, proved in
+    the C16 pack): the template read after ` is processed - exactly that form, once - inside a ``syntax_quoted()`` block,
+    i.e. under a new and empty gensym environment, and both context stacks are as before afterwards; ``~form`` reads as
+    ``(unquote form)`` and ``~@form`` as ``(unquote-splicing form)``, decided by the character after ``~`` alone."""
+    from basilisp.lang import reader as rd
+
+    from contracts import c16_reader as R
+
+    wanted = {"basilisp.lang.reader:_read_unquote", "basilisp.lang.reader:_read_syntax_quoted"}
+    got = {}
+    for c in R.build(active_known=frozenset()).contracts:
+        if c.modular and c.key.startswith("basilisp.lang.reader:StreamReader."):
+            c.spec_only = True
+        elif c.key in wanted and not c.modular:
+            got[c.key] = c
+            c.setup_.insert(0, R.setup)
+            c.replay_ = None
+        else:
+            continue
+        c.pack = pack
+        pack.contracts.append(c)
+    pack.trust("StreamReader.peek / next_char / advance / pushback behave as proved in the C16 pack (their contracts are used here, not their bodies); "
+               "_read_next_consuming_comment is used by contract (C16) and leaves the reader context's stacks as it found them (induction over nesting)")
+
+    def stacks(st, ctx):
+        return (z3.Select(st.lists, V.Val.a(fld(st, ctx, "_gensym_env"))), z3.Select(st.lists, V.Val.a(fld(st, ctx, "_syntax_quoted"))))
+
+    # ---- `form
+    c = got["basilisp.lang.reader:_read_syntax_quoted"]
+
+    def sq_setup(eng, st):
+        eng.class_id(dict)
+
+        def psq(e, s, a, k):
+            r = V.fresh_val("expanded")
+            s.assume(e.external_ref_fact(s, r))
+            s.ghost["psq_calls"] = list(s.ghost.get("psq_calls", [])) + [(s.copy(), e.lift(a[0], s), e.lift(a[1], s), r)]
+            yield s, SV(r)
+
+        eng.models[id(rd._process_syntax_quoted_form)] = Model("_process_syntax_quoted_form (its contract is above; here: which form, under which environment)", psq)
+
+    c.setup(sq_setup)
+    c.requires("the two context stacks are different deques", lambda a: fld(a.pre.st, a.ctx, "_gensym_env") != fld(a.pre.st, a.ctx, "_syntax_quoted"))
+
+    def sq_post(a):
+        pre, post = a.pre.st, a.post.st
+        calls = post.ghost.get("psq_calls", [])
+        subs = post.ghost.get("subreads", [])
+        if len(calls) != 1 or not subs or subs[-1][1] is None:
+            return z3.BoolVal(False)
+        at, ctx_arg, form_arg, r = calls[0]
+        g0, q0 = stacks(pre, a.ctx)
+        g1, q1 = stacks(at, a.ctx)
+        g2, q2 = stacks(post, a.ctx)
+        top = g1[z3.Length(g1) - 1]
+        ANYKEY = z3.Const("any_key", V.Val)
+        return z3.And(a.result == r, ctx_arg == a.ctx, form_arg == subs[-1][1],
+                      g1 == z3.Concat(g0, z3.Unit(top)), V.is_ref(top), V.Val.a(top) > 0, z3.Not(z3.Select(lib.dict_content(at, V.Val.a(top))[1], ANYKEY)),
+                      q1 == z3.Concat(q0, z3.Unit(V.mk_bool(True))), g2 == g0, q2 == q0)
+
+    c.ensures("`form returns the processed template: exactly the form read after the backquote is processed, once, under a new and empty gensym environment "
+              "with the reader marked as syntax-quoting, and both context stacks are as before afterwards", sq_post)
+
+    # ---- ~form and ~@form
+    c = got["basilisp.lang.reader:_read_unquote"]
+    c.requires("the two context stacks are different deques", lambda a: fld(a.pre.st, a.ctx, "_gensym_env") != fld(a.pre.st, a.ctx, "_syntax_quoted"))
+
+    def unq_post(a):
+        pre, post = a.pre.st, a.post.st
+        r = fld(pre, a.ctx, "_reader")
+        p = R.pos(pre, r)
+        items = V.seq_of(V.Val.a(fld(post, a.result, "_inner")))
+        g0, q0 = stacks(pre, a.ctx)
+        g2, q2 = stacks(post, a.ctx)
+        splice = R.CH(p + 1) == V.mk_str("@")
+        return z3.And(items[0] == z3.If(splice, a.eng.lift(rd._UNQUOTE_SPLICING, post), a.eng.lift(rd._UNQUOTE, post)), g2 == g0, q2 == q0)
+
+    c.ensures("~@form reads as (unquote-splicing form) and ~form as (unquote form) - decided by the character after the tilde - and the context stacks are as before", unq_post)
 
 
 SQ_REPLAY = r'''
